@@ -135,15 +135,15 @@ func ReactScenarios() []History {
 		Ev{Name: "Obs"},
 		Ev{Name: "TxBegin"},
 		Ev{Name: "Define", Signer: "o1", Svc: "s2"}, // by another author this time
-		Ev{Name: "Bind", Signer: "o1", Svc: "s2", Prov: "p3", Deposit: 40, DShape: "ok", Pr: pr(2), Qos: 1},
+		Ev{Name: "Bind", Signer: "o2", Svc: "s2", Prov: "p3", Deposit: 40, DShape: "ok", Pr: pr(2), Qos: 1}, // by the same owner as in the failed one
 		Ev{Name: "Call", Signer: "c1", Svc: "s2", Provs: []string{"p3"}, Cap: 10, Timeout: 2},
 		Ev{Name: "Call", Signer: "c2", Svc: "s1", Provs: both, Cap: 10, Timeout: 2, Rep: true, Freq: 2, Total: 2},
 		Ev{Name: "TxEnd"},
 		eb(1),
 		Ev{Name: "TxBegin"},
 		Ev{Name: "Respond", Signer: "p3", Rid: rid(1, 1, 1, 0), Kind: "valid"},
-		Ev{Name: "Withdraw", Signer: "o1", Prov: "p3"},
-		Ev{Name: "SetWithdrawAddr", Signer: "o1", Addr: "w1"},
+		Ev{Name: "Withdraw", Signer: "o2", Prov: "p3"},
+		Ev{Name: "SetWithdrawAddr", Signer: "o2", Addr: "w1"},
 		Ev{Name: "Respond", Signer: "p3", Rid: rid(1, 1, 1, 0), Kind: "valid"}, // answered already: everything is undone
 		Ev{Name: "TxEnd"},
 		Ev{Name: "Obs"},
@@ -152,7 +152,7 @@ func ReactScenarios() []History {
 		Ev{Name: "Withdraw", Signer: "o1"},
 		// a price cut, a new provider and a new withdrawal address in a transaction that fails: none of them happened
 		Ev{Name: "TxBegin"},
-		Ev{Name: "UpdateBinding", Signer: "o1", Svc: "s2", Prov: "p3", HasPr: true, Pr: pr(1)},
+		Ev{Name: "UpdateBinding", Signer: "o2", Svc: "s2", Prov: "p3", HasPr: true, Pr: pr(1)},
 		Ev{Name: "UpdateBinding", Signer: "o1", Svc: "s1", Prov: "p1", HasPr: true, Pr: pr(9), Deposit: 20, DShape: "ok"},
 		Ev{Name: "Bind", Signer: "o2", Svc: "s2", Prov: "pz", Deposit: 40, DShape: "ok", Pr: pr(2), Qos: 1},
 		Ev{Name: "SetWithdrawAddr", Signer: "o1", Addr: "c2"},
